@@ -843,7 +843,8 @@ where
 {
     let obb = match OrientedBoundingBox::from_points(points) {
         Some(v) => v,
-        None => return Ok(()),
+        // No points, hence no frame to build: rcb still validates the lengths.
+        None => return rcb(partition, points.par_iter().cloned(), weights, n_iter, tolerance),
     };
     let points = points.par_iter().map(|p| obb.obb_to_aabb(p));
     // When the rotation is done, we just apply RCB
